@@ -291,6 +291,8 @@ def q_emit_full(n=3, K=2):
               "decomposition: loop query guarantees the argument/ack relation that the single-call query assumes (both over real code)"])
 def c06(tier, seed):
     qs = [q_emit_loop(576), q_emit_send(), q_emit_full(3)] + q_emit_boundary()
+    # the ACK travels to the record's apparent mapper address: every class that can write it is held to the step rule (assert_mapp_step)
+    qs += [q_query(tier, 2), q_qltlv("alltypes_576"), q_discover(1, 1), q_other(tier, 2)]
     if tier == "thorough":
         qs += [q_emit_loop(1500), q_emit_full(12)]
     return qs
@@ -514,14 +516,18 @@ def c18_block_queries(K=2):
     return qs
 
 
+def q_fault_emit_send():
+    return blkq("blk_fault_emit_send", "h_emit_send", K=2, replace={}, defines=["FAULTS_SEND"], safety_for=("C01", "C18"),
+                desc="real sendProbeMsg with failing allocation / refused transmits: buffers released on every path")
+
+
 @prop("C18", ["fault schedule symbolic: the i-th lltd_port_malloc (i<8) and the i-th send fail iff flagged; MTU, address, icon, name and every attribute getter fail under independent flags - strictly contains 'fail exactly the k-th allocation' for every k",
               "'after the fault clears and a Reset arrives it behaves like a fresh responder' = faulty step ends in a state satisfying the record invariant (asserted here) + C09 from every such state",
               "the interface record exists before the faulty step (first-frame registration failure is the fresh-registry query)",
               "Emit under faults: descriptor walk with recording sendProbeMsg stub, and real sendProbeMsg alone with failing malloc/sends"])
 def c18(tier, seed):
     qs = c18_block_queries()
-    qs.append(blkq("blk_fault_emit_send", "h_emit_send", K=2, replace={}, defines=["FAULTS_SEND"], safety_for=("C01", "C18"),
-                   desc="real sendProbeMsg with failing allocation / refused transmits: buffers released on every path"))
+    qs.append(q_fault_emit_send())
     qs.append(Query("c18_degraded", "c18_ctors.c", "h_degraded", unwind=17, backends=("cadical", "minisat", "kissat"), safety_for=("C01", "C18"), timeout=900,
                     bounds={"start-up": "each of the first 8 allocations may fail (automata without extra state, missing automata, missing table)", "afterwards": "tick, every band/mapping/table helper, tick - arbitrary states and clock"},
                     desc="degraded operation after start-up allocation faults: tick and helpers never dereference a missing part"))
@@ -557,7 +563,7 @@ def c19(tier, seed):
     qs = c01_block_queries(576, hello_pairs=((33, 31),))
     if tier == "thorough":
         qs += c01_block_queries(1500, hello_pairs=((40, 40),))
-    qs += [q_probe_cap(), q_probe(tier, 3), q_query(tier, 3), q_query(tier, 5, frame_n=100, name="query_smallmtu"), q_reset(tier, 3), q_other(tier, 2), q_emit_send(), q_emit_full(3), q_qltlv("alltypes_576"), q_discover(32, 32)]
+    qs += [q_probe_cap(), q_probe(tier, 3), q_query(tier, 3), q_query(tier, 5, frame_n=100, name="query_smallmtu"), q_reset(tier, 3), q_other(tier, 2), q_emit_send(), q_fault_emit_send(), q_emit_full(3), q_qltlv("alltypes_576"), q_discover(32, 32)]
     return qs
 
 
